@@ -7,26 +7,8 @@ import MpsGen.Session
 namespace Mps.C17
 open Mps Mps.Handler
 
-/-- the API of a handler -/
-inductive Call where
-  | accept (m : Msg)
-  | canAccept (m : Msg)
-  | listen
-  | result
-  | stop
-  deriving Repr
-
-/-- effect of a call on the handler state (CanAccept / Listen / Result only read) -/
-def apply (H : Bytes → Bytes) (s : State) : Call → State
-  | .accept m => Handler.accept H s m
-  | .stop => Handler.stop s
-  | _ => s
-
-/-- any sequence of API calls on a freshly created handler -/
-def run (H : Bytes → Bytes) (sc : Script) (calls : List Call) : State := calls.foldl (apply H) (init H sc)
-
 theorem apply_good (H : Bytes → Bytes) (s : State) (c : Call) (g : Good s) : Good (apply H s c) := by
-  cases c <;> simp only [apply]
+  cases c <;> simp only [Handler.apply]
   · exact accept_good H s _ g
   · exact g
   · exact g
@@ -76,7 +58,7 @@ theorem ended_is_final (H : Bytes → Bytes) (sc : Script) (calls more : List Ca
   | cons c cs ih =>
     rw [List.foldl_cons]
     have : apply H s c = s := by
-      cases c <;> simp only [apply]
+      cases c <;> simp only [Handler.apply]
       · exact accept_terminal H s _ h
       · exact stop_terminal s h
     rw [this]; exact ih
